@@ -129,8 +129,8 @@ class Job:
 class Driver:
     """One real Manager under test + the environment the spec leaves to the schedule."""
 
-    def __init__(self, sizes: dict[str, int], cap: int):
-        self.sizes, self.cap = sizes, cap
+    def __init__(self, sizes: dict[str, int], cap: int, fast_disk: bool = False):
+        self.sizes, self.cap, self.fast_disk = sizes, cap, fast_disk
         FakeSeg.segs = {}
         Clock.t = 1_000_000
         self._old = (DSM.get_capacity, DSM.SharedMemory, DSM.time, DISK.SharedMemory, DISK.multiprocessing)
@@ -146,7 +146,11 @@ class Driver:
         self.jobs: list[Job] = []
         d = self.m.disk
         self.key_of_shmid: dict[str, str] = {}
-        d.page_out = lambda shmid, cb: self.jobs.append(Job("out", self.key_of_shmid[shmid], shmid, 0, cb))
+        if fast_disk:
+            # "fast disk": the job runs to its end inside the submit, i.e. while the server is still inside page_out_at_least
+            d.page_out = lambda shmid, cb: self.m.disk._page_out(shmid, cb)
+        else:
+            d.page_out = lambda shmid, cb: self.jobs.append(Job("out", self.key_of_shmid[shmid], shmid, 0, cb))
         d.page_in = lambda shmid, size, cb: self.jobs.append(Job("in", self.key_of_shmid[shmid], shmid, size, cb))
         self.readers: dict[str, list[tuple[str, int]]] = {k: [] for k in sizes}     # key -> [(rdid, ts)]
         self.written: dict[str, bytes] = {}     # ghost: bytes the writer of the current incarnation wrote
@@ -381,16 +385,26 @@ def expected_answer(last: tuple):
     return None
 
 
-def replay(behaviour: list[tuple[str, dict]], sizes: dict[str, int], cap: int) -> dict:
-    """Returns {'steps': n, 'mismatch': None | {...}, 'observed': [real projections]}."""
-    d = Driver(sizes, cap)
+def replay(behaviour: list[tuple[str, dict]], sizes: dict[str, int], cap: int, fast_disk: bool = False) -> dict:
+    """Returns {'steps': n, 'mismatch': None | {...}, 'observed': [real projections]}.
+    fast_disk: behaviours of Shm!FastDiskSpec; the real page-out jobs run synchronously inside the submit, the spec's job steps
+    have no real counterpart and states are compared whenever the spec has no page-out job pending."""
+    d = Driver(sizes, cap, fast_disk)
     observed = []
     try:
         for i, (label, s) in enumerate(behaviour[1:], start=2):
             last = s["last"]
             exp = spec_projection(s)
+            if fast_disk and last[0] in ("OutHalf1", "OutHalf2"):
+                for k in sizes:
+                    if k not in d.m.datasets:
+                        d.readers[k] = []
+                if any(j["kind"] in ("out", "outfail") for j in s["jobs"]):
+                    observed.append(dict(observed[-1]))       # (keeps observed[i] aligned with behaviour step i)
+                    continue
+                last = ("FastDiskDone",)
             try:
-                ans = d.apply(last)
+                ans = d.apply(last) if last[0] != "FastDiskDone" else None
             except Exception as e:  # the harness could not perform the step
                 return {"steps": i - 1, "mismatch": {"step": i, "action": list(last), "harness_error": repr(e)[:300]},
                         "observed": observed}
@@ -416,10 +430,11 @@ def replay(behaviour: list[tuple[str, dict]], sizes: dict[str, int], cap: int) -
                 got["reader_sees"] = ans[1] if len(ans) > 1 else "n/a"
             elif ea is not None and ans != ea:
                 diffs["answer"] = [ea, ans]
+            pending_out = fast_disk and any(j["kind"] in ("out", "outfail") for j in s["jobs"])
             for f in exp:
-                if exp[f] != got[f]:
+                if exp[f] != got[f] and not pending_out:
                     diffs[f] = [exp[f], got[f]]
-            observed.append(got)
+            observed.append(dict(observed[-1]) if pending_out and observed else got)
             if diffs:
                 return {"steps": i - 1, "mismatch": {"step": i, "action": list(map(str, last)), "diffs": diffs},
                         "observed": observed}
